@@ -395,6 +395,9 @@ func SetBtcTxParam(native *native.NativeService) ([]byte, error) {
 	if params.Detial.MinChange < 2000 {
 		return utils.BYTE_FALSE, fmt.Errorf("SetBtcTxParam, min-change can't less than 2000")
 	}
+	if params.Detial.MinChange > btcutil.MaxSatoshi {
+		return utils.BYTE_FALSE, fmt.Errorf("SetBtcTxParam, min-change can't be more than all the bitcoin there is")
+	}
 	cls, addrs, m, err := txscript.ExtractPkScriptAddrs(params.Redeem, netParam)
 	if err != nil {
 		return utils.BYTE_FALSE, fmt.Errorf("SetBtcTxParam, extract addrs from redeem %v", err)
